@@ -113,7 +113,23 @@ fn error_point_case(rng: &mut Rng) -> String {
     let n = r.toks.len();
     let j = rng.below(n + 1);
     let mut pieces: Vec<String> = r.toks[..j].iter().map(|t| t.text.clone()).collect();
-    match rng.below(4) {
+    let long_token = |rng: &mut Rng| -> String {
+        let n = rng.range(40, 400);
+        match rng.below(4) {
+            0 => format!("id_{}", "x".repeat(n)),
+            1 => format!("\"{}\"", "s é".repeat(n / 3)),
+            2 => "7".repeat(n),
+            _ => format!("@Ann{}", "n".repeat(n)),
+        }
+    };
+    match rng.below(5) {
+        4 => {
+            // a very long offending token (messages must still name the whole expectation set)
+            pieces.push(long_token(rng));
+            if rng.chance(1, 2) {
+                pieces.extend(r.toks[j..].iter().map(|t| t.text.clone()));
+            }
+        }
         0 => {} // end of input after the prefix
         1 => {
             // unacceptable (or acceptable, then the error comes later) token, then end of input
